@@ -373,12 +373,18 @@ def run(tier: str) -> int:
         body(chk, mc_nodes=3, n_random=8000, deep=4)
     chk.cov["exhaustive"] = True
     chk.cov["rule"] = ("every TLC-enumerated page over the asset-carrying library x2 modes, alternating document/fragment and "
-                       "placeholder/<head><body> layouts; random programs x random asset assignments (shared files, inheritance, "
-                       "extend on/off, dict css, blank code, class-name alphabets) via render_dependencies / middleware / "
-                       "Component.render. Non-trivial = renders >= 1 component instance.")
+                       "placeholder/<head><body> layouts (asset alphabet A), every 4th page again under asset alphabet B "
+                       "(inheritance-only Media: empty Media on a subclass, extend=[classes], unrendered theme class; code texts "
+                       "with backslash sequences); random programs x random asset assignments (shared files, inheritance by "
+                       "subclassing / extend lists, extend on/off, Media without own files in 4 spellings, dict css, blank code, "
+                       "code texts over the backslash / format alphabet, class-name alphabets) via render_dependencies / "
+                       "middleware / Component.render. Non-trivial = renders >= 1 component instance.")
     chk.assumptions += ["order is asserted for inline JS/CSS only; Media files are compared as 'each exactly once'",
                         "documents without <head>/<body> and without placeholders are not used (nothing can be inserted there)",
-                        "subclasses always define js/css themselves (which member of the pair is inherited is C16's business)"]
+                        "subclasses always define js/css themselves (which member of the pair is inherited is C16's business)",
+                        "inline code is compared as text in document mode (white space at its ends stripped); in fragment mode "
+                        "the declared URL identifies the class, the served text is not fetched",
+                        "a render that exceeds the pool's per-item limit is repeated alone with a 90 s limit before it counts as a hang"]
     return chk.finish()
 
 
